@@ -333,8 +333,12 @@ def case_crc(datas):
 
 def main():
     req = json.load(sys.stdin)
+    import aiokafka.record.default_records as _pub
+    from aiokafka.util import NO_EXTENSIONS
     out = {"where": {"aiokafka": os.path.dirname(aiokafka.__file__),
-                     "ext": cy_default.__file__},
+                     "ext": cy_default.__file__, "no_extensions": bool(NO_EXTENSIONS),
+                     "python_side_varint": rutil.encode_varint.__name__,
+                     "python_side_batch": _pub.DefaultRecordBatch.__module__ + "." + _pub.DefaultRecordBatch.__name__},
            "codecs": {"gzip": codecs.has_gzip(), "snappy": codecs.has_snappy(), "lz4": codecs.has_lz4(),
                       "zstd": codecs.has_zstd()}}
     if "v2" in req:
